@@ -395,7 +395,8 @@ func uniqFilter(a []any) (result []any) {
 		}
 		// the O(n^2) case:
 		for _, other := range result {
-			if eqItems(item, values.ToLiquid(other)) {
+			// arrays and maps are duplicates when they are equal as == has it
+			if values.Equal(item, other) {
 				return true
 			}
 		}
@@ -468,13 +469,3 @@ func resolveDrops(v any) any {
 }
 
 var dropType = reflect.TypeOf((*interface{ ToLiquid() any })(nil)).Elem()
-
-func eqItems(a, b any) bool {
-	if a == nil || b == nil {
-		return a == nil && b == nil
-	}
-	if reflect.ValueOf(a).Comparable() && reflect.ValueOf(b).Comparable() {
-		return a == b
-	}
-	return reflect.DeepEqual(a, b)
-}
